@@ -250,6 +250,22 @@ class Gen:
                     return [A("filter"), cs(r.choice(STR_POOL)), self.pick(["safe", "safe", "escape"])]
                 return cs(r.choice(STR_POOL))
             return n(self.pick(["s", "u", "m", "s"]))
+        if r.random() < 0.07:
+            # a postfix chain: subscription / attribute / call / filter directly followed by a slice or another subscript
+            # (`ss[0][1:]`, `o.k[:2]`, `f1(s)[1:][0]`): the operand of a postfix operator is itself a postfix expression
+            idx = self.pick([c(0), c(1), [A("un"), "-", c(1)], n("i")])
+            base = self.pick([
+                lambda: [A("item"), self.strlist(d - 1), idx],
+                lambda: [A("item"), n("ss"), idx],
+                lambda: [A("attr"), n("o"), "k"],
+                lambda: [A("item"), n("o"), cs("k")],
+                lambda: [A("call"), n("f1"), self.str(d - 1)],
+                lambda: [A("filter"), self.str(d - 1), self.pick(["upper", "lower", "string"])],
+            ])()
+            e = self.slice(base, d)
+            if r.random() < 0.4:
+                e = self.pick([lambda: self.slice(e, d), lambda: [A("item"), e, self.pick([c(0), [A("un"), "-", c(1)]])]])()
+            return e
         if r.random() < 0.12 * self.consts:
             # a constant subexpression whose value depends on the escaping mode
             meta = self.pick(["<b>", "a&b", "it's", 'say "q"', "&lt;"])
